@@ -289,7 +289,18 @@ func TestStatsEqualRecount(t *testing.T) {
 					media = 0 // RFC 5104: the media source field of a FIR is zero, the target is in the FCI entry
 				}
 
-				return &rtcp.FullIntraRequest{SenderSSRC: 5, MediaSSRC: media, FIR: []rtcp.FIREntry{{SSRC: target, SequenceNumber: 1}}}
+				// one FIR can ask several streams for a key frame: 1..3 entries, the target anywhere among them
+				entries := []rtcp.FIREntry{{SSRC: target, SequenceNumber: 1}}
+				for i, n := 0, rapid.SampledFrom([]int{0, 0, 1, 2}).Draw(t, "firMore"); i < n; i++ {
+					e := rtcp.FIREntry{SSRC: uint32(rapid.SampledFrom([]int{100, 101, 200, 201, 900}).Draw(t, "firOther")), SequenceNumber: uint8(i + 2)} //nolint:gosec
+					if rapid.Bool().Draw(t, "firBefore") {
+						entries = append([]rtcp.FIREntry{e}, entries...)
+					} else {
+						entries = append(entries, e)
+					}
+				}
+
+				return &rtcp.FullIntraRequest{SenderSSRC: 5, MediaSSRC: media, FIR: entries}
 			}
 		}
 		outRTCP := func(t *rapid.T) {
@@ -300,7 +311,11 @@ func TestStatsEqualRecount(t *testing.T) {
 				switch rapid.IntRange(0, 5).Draw(t, "kind") {
 				case 0: // SR of one of our local streams
 					ssrc := pickSSRC(t, "srssrc", true)
-					pkts = append(pkts, &rtcp.SenderReport{SSRC: ssrc, NTPTime: nextStamp(), RTPTime: 1, PacketCount: 2, OctetCount: 3})
+					stamp := nextStamp()
+					if m := models[ssrc]; m != nil && len(m.lastSRs) > 0 && rapid.IntRange(0, 5).Draw(t, "sameStampAgain") == 0 {
+						stamp = m.lastSRs[len(m.lastSRs)-1] // a sender report written twice with the same NTP time: one reception report still is one measurement
+					}
+					pkts = append(pkts, &rtcp.SenderReport{SSRC: ssrc, NTPTime: stamp, RTPTime: 1, PacketCount: 2, OctetCount: 3})
 					types["SR"] = true
 				case 1:
 					// an XR with a receiver reference time block, alone or next to blocks that name one particular stream: every recorder still sees the RRTR
@@ -452,13 +467,18 @@ func TestStatsEqualRecount(t *testing.T) {
 						m.pliIn++
 					}
 				case *rtcp.FullIntraRequest:
+					counted := map[uint32]bool{} // one request per FIR packet and stream, wherever the stream stands among the entries
 					for _, e := range v.FIR {
-						if m := models[e.SSRC]; m != nil {
+						if m := models[e.SSRC]; m != nil && !counted[e.SSRC] {
+							counted[e.SSRC] = true
 							m.firIn++
 							if v.MediaSSRC != e.SSRC {
 								classes["fir-media-zero"] = true
 							}
 						}
+					}
+					if len(v.FIR) > 1 {
+						classes["fir-several-entries"] = true
 					}
 				case *rtcp.ReceiverReport:
 					for _, rr := range v.Reports {
